@@ -273,10 +273,10 @@ func fatalf(format string, a ...any) {
 // ---------- executing a batch of eval cases on both sides ----------
 
 type evalOutcome struct {
-	c       *EvalCase
-	model   *WObs
-	pred    map[string]any
-	hErr    string // harness error (not a violation)
+	c     *EvalCase
+	model *WObs
+	pred  map[string]any
+	hErr  string // harness error (not a violation)
 }
 
 func runEvalBatch(cases []*EvalCase) []evalOutcome {
